@@ -115,7 +115,7 @@ WS_CHARS = [" ", "\u00a0", "\u2028", "\u3000", "\u0085", "  "]
 
 
 def gen_dup_tree(r, n_classes=6, max_members=4, hostile_p=0.0, n_dirs=4, max_depth=3, hardlinks=True,
-                 lens=None, decoys=True, extra_offsets=(), min_len=1, roots=1, ws_twins=0.0):
+                 lens=None, decoys=True, extra_offsets=(), min_len=1, roots=1, ws_twins=0.0, concat_collisions=0.0):
     """A tree with content classes (identical files), same-length single-byte decoys, hard links.
 
     Returns (spec, meta) where meta lists classes: {"fam","len","flip","members":[relpaths]}."""
@@ -174,6 +174,26 @@ def gen_dup_tree(r, n_classes=6, max_members=4, hostile_p=0.0, n_dirs=4, max_dep
                 nd = r.randrange(1, 3)
                 dm = [newfile(fam, L, (o,)) for _ in range(nd)]
                 classes.append({"fam": fam, "len": L, "flip": [o], "members": dm, "decoy_of": c})
+    if concat_collisions and r.random() < concat_collisions and classes:
+        # paths whose components concatenate to the same string: D/ab/c and D/a/bc (hard links or copies)
+        cls = r.choice(classes)
+        base = r.choice(root_names)
+        k = len(entries)
+        d1, d2 = "%s/cc%dab" % (base, k), "%s/cc%da" % (base, k)
+        entries.append({"t": "d", "p": d1})
+        entries.append({"t": "d", "p": d2})
+        mt += 1
+        p1, p2 = d1 + "/c", d2 + "/bc"
+        if d1[len(base) + 1:] + "c" == d2[len(base) + 1:] + "bc":
+            entries.append({"t": "f", "p": p1, "fam": cls["fam"], "len": cls["len"], "flip": list(cls["flip"]), "mtime": mt})
+            cls["members"].append(p1)
+            if r.random() < 0.6:
+                entries.append({"t": "h", "p": p2, "to": p1})
+                cls.setdefault("links", []).append((p2, p1))
+            else:
+                mt += 1
+                entries.append({"t": "f", "p": p2, "fam": cls["fam"], "len": cls["len"], "flip": list(cls["flip"]), "mtime": mt})
+            cls["members"].append(p2)
     if ws_twins and r.random() < ws_twins:
         # a class member whose name ends (or starts) with white space, next to an unrelated unique
         # file of the same length whose name is the trimmed one
